@@ -181,12 +181,14 @@ def register(S):
     S.external("signal_signal", params={"self_arg": "any", "signum": "val", "handler": "val"}, result="val",
                note="signal.signal: ghost event Signal(signum, handler); returns the previous handler",
                outcomes=[{"label": "ok", "events": [("Signal", "signum", "handler")]}])
-    DRAINED = ("n_ev('Waitpid') == 1 and ev_val('Waitpid', 0, 1) == -1 and "
-               "(ev_val('Waitpid', 0, 2) == 'raise' or (is_int(ev_val('Waitpid', 0, 2)) and as_int(ev_val('Waitpid', 0, 2)) <= 0))")
+    # stated over the LAST Waitpid event of the trace (with the loop cut by its contract that is the event of the last, incomplete
+    # iteration; with the loop unrolled - the triage of a restructured loop - it is the last one overall)
+    LASTW = "ev_val('Waitpid', n_ev('Waitpid') - 1, %d)"
+    DRAINED = ("n_ev('Waitpid') >= 1 and %s == -1 and (%s == 'raise' or (is_int(%s) and as_int(%s) <= 0))" % (LASTW % 1, LASTW % 2, LASTW % 2, LASTW % 2))
     S.contract(F + "ForkingServer._handle_sigchld", params={"cls": "val", "signum": "val", "unused": "val"}, self_name="cls",
                dynamic_errors=True, effects={"normal": (0, 0), "raise": (0, 0)},
                abstract_calls={"os.waitpid": "os_waitpid", "signal.signal": "signal_signal"},
-               loops={0: {"invariant": [], "local_trace": True, "props": P17,
+               loops={0: {"invariant": [], "local_trace": True, "props": P17, "unrollable": True,
                           # an iteration that goes round again reaped exactly one child (any wildcard wait)
                           "body_events": ["n_events() == 1 and n_ev('Waitpid') == 1 and ev_val('Waitpid', 0, 1) == -1 and "
                                           "is_int(ev_val('Waitpid', 0, 2)) and as_int(ev_val('Waitpid', 0, 2)) > 0"]}},
